@@ -53,16 +53,15 @@ func decidingConds(fn *ssa.Function, b *ssa.BasicBlock) []struct {
 		if r0[b] == r1[b] {
 			continue
 		}
-		cond, flip := stripNot(ifi.Cond)
-		want := r0[b]
-		if flip {
-			want = !want
+		// the condition itself and, for a boolean φ built by && / || evaluated as a value, the atomic
+		// condition it implies on this outcome
+		for _, ic := range ImpliedConds(ifi.Cond, r0[b]) {
+			out = append(out, struct {
+				Cond ssa.Value
+				If   *ssa.If
+				Want bool
+			}{ic.Cond, ifi, ic.Val})
 		}
-		out = append(out, struct {
-			Cond ssa.Value
-			If   *ssa.If
-			Want bool
-		}{cond, ifi, want})
 	}
 	return out
 }
@@ -594,7 +593,7 @@ func c03Verify(c *Ctx) {
 					}
 					return false, false
 				})
-				if g, _ := Guarded(fn.Blocks[0], r, pass, nil); g && len(pass) > 0 {
+				if g, _ := Guarded(fn.Blocks[0], r, pass, nil); g && nonVacuous(pass) {
 					c.Info("R5", key+":exception", p.InstrPos(r), "exception: tus reports success without verification when the server already holds all bytes (Upload-Offset >= size)")
 					continue
 				}
